@@ -14,6 +14,7 @@ import (
 	"encoding/binary"
 	"encoding/hex"
 	"fmt"
+	"hash/crc32"
 	"net"
 	"net/netip"
 	"strings"
@@ -559,6 +560,135 @@ func stunShaped(r *vgen.Rand, i int) ([]byte, string) {
 	}
 }
 
+// ---- STUN messages built by construction (pkg/stun: Is, ParseBindingRequest, foreachAttr, fingerPrint;
+// udpip internalLink.processPacket). Length computations covered: len >= 20 (Is); the attribute walker's
+// "4 bytes of attribute header left", "padded length <= rest", value slice b[:attrLen], advance by the padded
+// length; fingerprint attribute of length exactly 4 as LAST attribute; the fingerprint input b[:len-8];
+// the answer written over the request (32 / 44 bytes into a possibly shorter request).
+
+type stunAttr struct {
+	typ     uint16
+	length  int // announced length
+	data    int // value bytes actually present (-1: as announced)
+	padding int // pad bytes present (-1: full padding)
+}
+
+var stunAttrTypes = []uint16{0x8028, 0x0001, 0x0020, 0x8020, 0x0006, 0x8022, 0x7fff, 0xffff, 0x0000}
+
+// stunMsg serializes header + attributes. lenMode: 0 consistent message-length field, 1 smaller, 2 larger,
+// 3 zero, 4 0xffff. fp: append a correct FINGERPRINT attribute computed over everything before it.
+func stunMsg(r *vgen.Rand, msgType [2]byte, cookieOK bool, attrs []stunAttr, lenMode int, fp bool) []byte {
+	b := []byte{msgType[0], msgType[1], 0, 0, 0x21, 0x12, 0xa4, 0x42}
+	if !cookieOK {
+		b[4+r.Intn(4)] ^= byte(1 + r.Intn(255))
+	}
+	b = append(b, r.Bytes(12)...)
+	for _, a := range attrs {
+		b = append(b, byte(a.typ>>8), byte(a.typ), byte(a.length>>8), byte(a.length))
+		n := a.length
+		if a.data >= 0 {
+			n = min(a.data, a.length)
+		}
+		b = append(b, r.Bytes(n)...)
+		if n == a.length {
+			pad := (4 - a.length%4) % 4
+			if a.padding >= 0 {
+				pad = min(pad, a.padding)
+			}
+			b = append(b, make([]byte, pad)...)
+		}
+	}
+	if fp {
+		// as stun.Request does: the length field counts the fingerprint attribute
+		binary.BigEndian.PutUint16(b[2:], uint16(len(b)-20+8))
+		c := crc32.ChecksumIEEE(b) ^ 0x5354554e
+		b = append(b, 0x80, 0x28, 0, 4, byte(c>>24), byte(c>>16), byte(c>>8), byte(c))
+	}
+	body := len(b) - 20
+	switch lenMode {
+	case 0:
+		binary.BigEndian.PutUint16(b[2:], uint16(body))
+	case 1:
+		binary.BigEndian.PutUint16(b[2:], uint16(max(0, body-1-r.Intn(8))))
+	case 2:
+		binary.BigEndian.PutUint16(b[2:], uint16(body+1+r.Intn(40)))
+	case 3:
+		binary.BigEndian.PutUint16(b[2:], 0)
+	case 4:
+		binary.BigEndian.PutUint16(b[2:], 0xffff)
+	}
+	return b
+}
+
+// stunEnumerated lists, completely, binding requests whose LAST attribute has every length 0..9 (and
+// 12, 255, 1000) with 0..3 of its pad bytes and 0.. all of its value bytes present, after no / one /
+// two leading attributes, for every attribute type the code looks at and unknown ones.
+func stunEnumerated(r *vgen.Rand) (msgs [][]byte, what []string) {
+	req := [2]byte{0, 1}
+	leads := [][]stunAttr{nil, {{typ: 0x7fff, length: 4, data: -1, padding: -1}},
+		{{typ: 0x8028, length: 4, data: -1, padding: -1}, {typ: 0x0006, length: 5, data: -1, padding: -1}}}
+	for li, lead := range leads {
+		for _, t := range []uint16{0x8028, 0x0020, 0x7fff} {
+			for _, l := range []int{0, 1, 2, 3, 4, 5, 6, 7, 8, 9, 12, 255, 1000} {
+				needPad := (4 - l%4) % 4
+				for pad := 0; pad <= needPad; pad++ {
+					as := append(append([]stunAttr{}, lead...), stunAttr{typ: t, length: l, data: -1, padding: pad})
+					msgs = append(msgs, stunMsg(r, req, true, as, li%2*2, false))
+					what = append(what, fmt.Sprintf("last-attr-len%d-pad%d/%d", l, pad, needPad))
+				}
+				// value cut short: 0 .. l-1 bytes present (sampled for the long ones)
+				for _, d := range []int{0, 1, l / 2, l - 1} {
+					if d < 0 || d >= l {
+						continue
+					}
+					as := append(append([]stunAttr{}, lead...), stunAttr{typ: t, length: l, data: d})
+					msgs = append(msgs, stunMsg(r, req, true, as, 0, false))
+					what = append(what, fmt.Sprintf("last-attr-len%d-data%d", l, d))
+				}
+			}
+		}
+	}
+	return
+}
+
+// stunBuilt draws one constructed message.
+func stunBuilt(r *vgen.Rand) ([]byte, string) {
+	msgType := [2]byte{0, 1}
+	kind := "request"
+	switch r.Intn(8) {
+	case 0:
+		msgType, kind = [2]byte{1, 1}, "response"
+	case 1:
+		msgType, kind = [2]byte{byte(r.Intn(64)), byte(r.U64())}, "other-type"
+	}
+	var as []stunAttr
+	for k := r.Intn(5); k > 0; k-- {
+		a := stunAttr{typ: stunAttrTypes[r.Intn(len(stunAttrTypes))], data: -1, padding: -1}
+		switch r.Intn(6) {
+		case 0:
+			a.length = vgen.Pick(r, 12, 20, 255, 1000, 65535)
+			a.data = r.Intn(60)
+		default:
+			a.length = r.Intn(10)
+		}
+		as = append(as, a)
+	}
+	if len(as) > 0 {
+		last := &as[len(as)-1]
+		switch r.Intn(4) {
+		case 0:
+			last.padding = r.Intn(3)
+		case 1:
+			last.padding = 0
+		case 2:
+			last.data = r.Intn(last.length + 1)
+		}
+	}
+	fp := r.Chance(1, 3)
+	lenMode := vgen.Pick(r, 0, 0, 0, 1, 2, 3, 4)
+	return stunMsg(r, msgType, !r.Chance(1, 12), as, lenMode, fp), fmt.Sprintf("built-%s-attrs%d-fp=%v-len%d", kind, len(as), fp, lenMode)
+}
+
 func scionish(r *vgen.Rand, n int) []byte {
 	b := r.Bytes(n)
 	if n < 12 {
@@ -810,6 +940,49 @@ func main() {
 			ing = ingresses(r, cf.rt.Cfg)
 		}
 		x.emitBytes("stun", what, cf, b, ing, srcs[(i/12)%3])
+	}
+	// ---- stream 4b: STUN messages built by construction, all on the internal link
+	intIng := rtgen.Ingress{Kind: rtgen.IngInt}
+	stunProbe := func(b []byte) {
+		// pkg/stun's client-side parser is not on the router's receive path; a panic there is only tallied
+		if p, _ := vgen.Recover(func() { _, _, _ = stun.ParseResponse(b) }); p {
+			run.Tally("OBSERVATION:stun.ParseResponse-panics")
+		}
+	}
+	{
+		// complete enumeration of the last-attribute boundary cases, every run
+		msgs, what := stunEnumerated(x.rng.Fork(650000))
+		for i, b := range msgs {
+			x.emitBytes("stun", "enum:"+what[i], x.cfgs[i%len(x.cfgs)], b, intIng, srcs[i%3])
+			stunProbe(b)
+		}
+		run.Tally(fmt.Sprintf("stun-enumerated-messages:%d", len(msgs)))
+	}
+	nStunBuilt := run.Count(1500, 200000)
+	for i := 0; i < nStunBuilt; i++ {
+		r := x.rng.Fork(uint64(700000 + i))
+		b, what := stunBuilt(r)
+		x.emitBytes("stun", what, x.cfgs[i%len(x.cfgs)], b, intIng, srcs[i%3])
+		stunProbe(b)
+	}
+	// truncation at every offset of the attribute area (and of the header) of constructed messages
+	nStunTrunc := run.Count(12, 400)
+	for i := 0; i < nStunTrunc; i++ {
+		r := x.rng.Fork(uint64(800000 + i))
+		var b []byte
+		for {
+			b, _ = stunBuilt(r)
+			if len(b) > 24 && len(b) <= 120 {
+				break
+			}
+		}
+		for k := 0; k <= 120; k++ {
+			if k > len(b) {
+				run.Skip()
+				continue
+			}
+			x.emitBytes("stun", "built-truncated-every-offset", x.cfgs[i%len(x.cfgs)], b[:k], intIng, srcs[i%3])
+		}
 	}
 	run.Extra("inputs_executed_without_coq_case", x.goOnly)
 	run.Prelude = "From Coq Require Import PrimInt63.\n" + strings.Join(x.prelude, "\n")
